@@ -65,7 +65,7 @@ func runC20(outer *testing.T) func(t rapid.TB, c Case, rec *vx.Case) {
 					}
 				case st.StoredBefore:
 					conflictOK++
-					rec.Class("conflict-accepted-%s", st.Op.V)
+					rec.Class("conflict-accepted-%s", variantOf(st))
 					if !frozenCS(st.PostCS) {
 						vx.Violatef(t, rec, id, "conflict-not-frozen", "a verified header for stored height %s with a different consensus state did not freeze the client; %s", st.Hdr.H, describe(st))
 					}
@@ -78,6 +78,7 @@ func runC20(outer *testing.T) func(t rapid.TB, c Case, rec *vx.Case) {
 			}
 			if st.Hdr != nil && st.HadTx && !st.OK {
 				rejected++
+				rec.Add("rej_"+rejReason(st.Err), 1)
 			}
 			if st.Kind == "misb" && st.OK {
 				if st.MisbConflict {
@@ -110,7 +111,14 @@ func runC20(outer *testing.T) func(t rapid.TB, c Case, rec *vx.Case) {
 	}
 }
 
-var wC20 = weights{"tip": 6, "past": 6, "update": 3, "resubmit": 4, "conflict": 2, "misb": 1, "time": 3, "block": 1, "recover": 2}
+func variantOf(st *step) string {
+	if st.Kind == "conflict" {
+		return st.Op.V
+	}
+	return "by-" + st.Op.K
+}
+
+var wC20 = weights{"tip": 6, "past": 6, "update": 3, "resubmit": 4, "conflict": 2, "misb": 1, "time": 5, "block": 1, "recover": 2}
 
 func TestC20(t *testing.T) {
 	vx.Check(t, vx.Prop[Case]{
